@@ -18,6 +18,14 @@ type kvs struct {
 func mkFpMap(name string, n int) (fp.Map[int, int], kvs) {
 	m := immutable.Map[int, int](hash.Number[int]())
 	var l kvs
+	switch zz.Choice(name+".repr", 3) {
+	case 1:
+		// the zero-value Map: an empty map without a base
+		return fp.Map[int, int]{}, l
+	case 2:
+		// an empty map that has been non-empty
+		return m.Updated(1, 1).Removed(1), l
+	}
 	k := zz.Choice(name+".n", n+1)
 	for i := 0; i < k; i++ {
 		key, v := zz.Int(name+".k"+string(rune('0'+i))), zz.Int(name+".v"+string(rune('0'+i)))
